@@ -71,3 +71,31 @@ Check (C03.C03_history_written : forall fp o sizes inp bs,
     /\ (forall c vs s e, In (c, vs) (runs inp) ->
           fresh_answer infl bs i (QInterval c s e) = AInterval (Ok (clip_filter s e vs))
           /\ (s <= e -> fresh_answer infl bs i (QValues c s e) = AValues (Ok (spec_values s e vs))))).
+
+(* ---- compressed files (Model/BigWigWriteZ.v: the compressor is a parameter) ---- *)
+From BT Require Import Model.BigWigWriteZ.
+Check (eq_refl : bw_write_z = fun cmp fp o => bw_write_zc cmp (o_compress o) fp o).
+Check (eq_refl : bw_write_multipass_z = fun cmp fp o => bw_write_multipass_zc cmp (o_compress o) fp o).
+Check (C03.C03_query_compressed : forall cmp infl fp o sizes inp bs,
+  bw_write_z cmp fp o sizes inp = Ok bs \/ bw_write_multipass_z cmp fp o sizes inp = Ok bs ->
+  (o_compress o = true -> forall b, infl (cmp b) = b) ->
+  opts_ok o -> input_ok sizes inp -> Nlen bs < U64 ->
+  exists i, read_info bs = Ok i /\
+    forall c vs s e, In (c, vs) (runs inp) -> bw_interval infl bs i c s e = Ok (clip_filter s e vs)).
+Check (C03.C03_values_compressed : forall cmp infl fp o sizes inp bs,
+  bw_write_z cmp fp o sizes inp = Ok bs \/ bw_write_multipass_z cmp fp o sizes inp = Ok bs ->
+  (o_compress o = true -> forall b, infl (cmp b) = b) ->
+  opts_ok o -> input_ok sizes inp -> Nlen bs < U64 ->
+  exists i, read_info bs = Ok i /\
+    forall c vs s e, In (c, vs) (runs inp) -> s <= e -> bw_values infl bs i c s e = Ok (spec_values s e vs)).
+Check (C03.C03_history_written_compressed : forall cmp infl fp o sizes inp bs,
+  bw_write_z cmp fp o sizes inp = Ok bs \/ bw_write_multipass_z cmp fp o sizes inp = Ok bs ->
+  (o_compress o = true -> forall b, infl (cmp b) = b) ->
+  opts_ok o -> input_ok sizes inp -> Nlen bs < U64 ->
+  exists i, read_info bs = Ok i /\
+    (forall qs1 qs2,
+        fst (qrun infl bs i cache0 qs1) = map (fresh_answer infl bs i) qs1
+        /\ fst (qrun infl bs i (c_reopen (snd (qrun infl bs i cache0 qs1))) qs2) = map (fresh_answer infl bs i) qs2)
+    /\ (forall c vs s e, In (c, vs) (runs inp) ->
+          fresh_answer infl bs i (QInterval c s e) = AInterval (Ok (clip_filter s e vs))
+          /\ (s <= e -> fresh_answer infl bs i (QValues c s e) = AValues (Ok (spec_values s e vs))))).
